@@ -1,6 +1,7 @@
 package main
 
 import (
+	"go/ast"
 	"go/types"
 	"hash/fnv"
 	"sort"
@@ -12,6 +13,34 @@ func funcID(name string) *Term {
 	h := fnv.New32a()
 	h.Write([]byte(name))
 	return IntC(int64(2000000) + int64(h.Sum32()%1000000000))
+}
+
+// checkCallbackLit verifies the body of a function literal passed as a
+// callback: parameters are arbitrary (restricted by the contract's
+// `lit N requires` clause), captured variables have their current values.
+func (x *Exec) checkCallbackLit(lit *ast.FuncLit, st *State) {
+	ord := x.litOrd[lit]
+	s2 := st.clone()
+	sig, _ := x.info.TypeOf(lit).(*types.Signature)
+	if sig != nil {
+		for i := 0; i < sig.Params().Len(); i++ {
+			p := sig.Params().At(i)
+			s2.vars[p] = x.fresh(s2, p.Type(), p.Name())
+		}
+	}
+	if x.c != nil {
+		for _, r := range x.c.LitRequires[ord] {
+			old := x.curPos
+			x.curPos = lit.Body.Pos()
+			s2.add(x.cbool(r.Expr, x.cctx(s2, r)))
+			x.curPos = old
+		}
+	}
+	var rets []*State
+	old := x.litReturn
+	x.litReturn = &rets
+	x.stmts(lit.Body.List, []*State{s2}, nil)
+	x.litReturn = old
 }
 
 // mentionsArrayEq: t contains an equality between array-sorted terms one of
